@@ -77,10 +77,13 @@ pub struct ScriptedRead {
     i: usize,
     rem: Option<usize>,
     paused: bool,
-    pub log: Rc<RefCell<Vec<Value>>>,
+    /// (bytes delivered | -1 for an error, bytes wanted, bytes left, index of the failing script step); kept
+    /// allocation-free inside calls (capacity reserved up front) so that it does not disturb the heap measurement
+    pub log: Rc<RefCell<Vec<(i64, usize, usize, usize)>>>,
 }
 impl ScriptedRead {
-    pub fn new(data: Rc<Vec<u8>>, script: Vec<Step>, log: Rc<RefCell<Vec<Value>>>) -> Self {
+    pub fn new(data: Rc<Vec<u8>>, script: Vec<Step>, log: Rc<RefCell<Vec<(i64, usize, usize, usize)>>>) -> Self {
+        log.borrow_mut().reserve(16384);
         ScriptedRead { data, pos: 0, script, i: 0, rem: None, paused: false, log }
     }
 }
@@ -100,11 +103,11 @@ impl Read for ScriptedRead {
         match step {
             Step::Pause => unreachable!(),
             Step::Err(k, m) => {
-                self.log.borrow_mut().push(json!({"ev":"read","n":-1,"want":nsat(buf.len()),"io":format!("{:?}:{}", k, m)}));
+                self.log.borrow_mut().push((-1, buf.len(), left, self.i - 1));
                 Err(std::io::Error::new(k, m))
             }
             Step::Zero => {
-                self.log.borrow_mut().push(json!({"ev":"read","n":0,"want":nsat(buf.len()),"io":"","left":nsat(left)}));
+                self.log.borrow_mut().push((0, buf.len(), left, 0));
                 Ok(0)
             }
             Step::N(n) => {
@@ -112,7 +115,7 @@ impl Read for ScriptedRead {
                 if k < n && k < left && n != usize::MAX { self.rem = Some(n - k); }
                 buf[..k].copy_from_slice(&self.data[self.pos..self.pos + k]);
                 self.pos += k;
-                self.log.borrow_mut().push(json!({"ev":"read","n":k as i64,"want":nsat(buf.len()),"io":"","left":nsat(left - k)}));
+                self.log.borrow_mut().push((k as i64, buf.len(), left - k, 0));
                 Ok(k)
             }
         }
@@ -180,7 +183,7 @@ pub fn run_reader<T: EbmlSpecification<T> + EbmlTag<T> + Clone>(
     out: &mut Out, tag: &str, input: &[u8], cfg: &ReaderCfg, sched: &[Step], calls: &Calls,
 ) -> Vec<Value> {
     out.ev(json!({"ev":"run","tag":tag,"input":b(input),"cfg":cfg.json(),"sched":sched_json(sched)}));
-    let log = Rc::new(RefCell::new(Vec::new()));
+    let log: Rc<RefCell<Vec<(i64, usize, usize, usize)>>> = Rc::new(RefCell::new(Vec::new()));
     let src = ScriptedRead::new(Rc::new(input.to_vec()), sched.to_vec(), log.clone());
     let to_buffer: Vec<T> = cfg.buffer.iter().filter_map(|id| T::get_master_tag(*id, Master::Start)).collect();
     let mut it: TagIterator<ScriptedRead, T> = match cfg.cap {
@@ -211,17 +214,24 @@ pub fn run_reader<T: EbmlSpecification<T> + EbmlTag<T> + Clone>(
         ncalls += 1;
         crate::alloc::reset_peak();
         let before = crate::alloc::current();
-        let mut ev = match call {
-            Call::Next => {
-                match catch_unwind(AssertUnwindSafe(|| it.next())) {
+        // the peak is taken immediately after the call returns: converting the result to JSON allocates too
+        enum Raw<T> { N(std::thread::Result<Option<Result<T, TagIteratorError>>>), R(std::thread::Result<Result<(), TagIteratorError>>) }
+        let raw = match call {
+            Call::Next => Raw::N(catch_unwind(AssertUnwindSafe(|| it.next()))),
+            Call::Recover => Raw::R(catch_unwind(AssertUnwindSafe(|| it.try_recover()))),
+        };
+        let peak_now = crate::alloc::peak().saturating_sub(before);
+        let mut ev = match raw {
+            Raw::N(r) => {
+                match r {
                     Ok(Some(Ok(t))) => { let mut v = tag_json(&t); v["res"] = json!("item"); v["off"] = nsat(it.last_emitted_tag_offset()); v }
                     Ok(Some(Err(e))) => err_json(&e),
                     Ok(None) => json!({"res":"none"}),
                     Err(p) => json!({"res":"panic","msg":panic_msg(&p)}),
                 }
             }
-            Call::Recover => {
-                match catch_unwind(AssertUnwindSafe(|| it.try_recover())) {
+            Raw::R(r) => {
+                match r {
                     Ok(Ok(())) => json!({"res":"ok"}),
                     Ok(Err(e)) => { let mut v = err_json(&e); v["res"] = json!(if v["ekind"] == "eof" { "eof" } else if v["ekind"] == "io" { "io" } else { "other" }); v }
                     Err(p) => json!({"res":"panic","msg":panic_msg(&p)}),
@@ -229,11 +239,14 @@ pub fn run_reader<T: EbmlSpecification<T> + EbmlTag<T> + Clone>(
             }
         };
         ev["ev"] = json!(if call == Call::Next { "next" } else { "recover" });
-        ev["peak"] = nsat(crate::alloc::peak().saturating_sub(before));
+        ev["peak"] = nsat(peak_now);
         it.get_mut().end_of_call();
         let panicked = ev["res"] == "panic";
         if !panicked { ev["st"] = state_json(&it); }
-        for r in log.borrow_mut().drain(..) { out.ev(r); }
+        for (nb, want, left, si) in log.borrow_mut().drain(..) {
+            let io = if nb < 0 { match &sched[si] { Step::Err(k, m) => format!("{:?}:{}", k, m), _ => String::new() } } else { String::new() };
+            out.ev(json!({"ev":"read","n":nb,"want":nsat(want),"left":nsat(left),"io":io}));
+        }
         out.ev(ev.clone());
         let res = ev["res"].as_str().unwrap().to_string();
         results.push(ev);
